@@ -303,16 +303,14 @@ func genMixedScenario(t *rapid.T, ties bool) (scenario, []string) {
 	sc.Bridges = genBridges(t)
 	n := rapid.IntRange(2, 24).Draw(t, "nevents")
 	sid, cid := 0, 0
-	times := []int64{0, 1, 2, sec, 3 * sec, 5 * sec, 9 * sec, 10*sec - 1, 10 * sec, 10*sec + 1, 12 * sec, 15 * sec, 19 * sec, 20 * sec, 20*sec + 1, 22 * sec}
-	if !ties {
-		// pairwise distinct instants, none on a timer boundary of another event: t = 100 ms * k + small
-		times = nil
-	}
 	used := map[int64]bool{}
 	for i := 0; i < n; i++ {
 		var at int64
 		if ties {
-			at = rapid.SampledFrom(times).Draw(t, "at")
+			// rounds: a base instant plus an offset from the tie grid, so that polls and clients of one
+			// round overlap (a poll lives 10 s) and timer ties are frequent
+			base := rapid.SampledFrom([]int64{0, 0, 12 * sec, 24 * sec}).Draw(t, "base")
+			at = base + rapid.SampledFrom([]int64{0, 0, 1, 2, sec, 3 * sec, 5 * sec, 9 * sec, 10*sec - 1, 10 * sec, 10*sec + 1}).Draw(t, "offset")
 		} else {
 			// distinct, and never exactly 10 s after another event
 			for {
